@@ -311,6 +311,96 @@ def event_sig(prog: Program) -> RuleResult:
     return res
 
 
+
+# ---------------------------------------------------------------------------
+# homogeneity (C09: multiplying every unit cost by k multiplies every value by k)
+
+
+def _atom_weight(key: str) -> Optional[int]:
+    """Degree of an atom in the unit costs: 1 for unit costs and for values that are themselves sums of
+    unit costs (sub-problem values, labelling charges), 0 for counts; None when the atom is itself
+    inhomogeneous."""
+    if key.startswith("c["):
+        return 1
+    head = key.split(".")[0].split("@")[0]
+    if head in ("S", "V", "U") or key == "inf":
+        return 1
+    if key.startswith("Phi["):
+        inner = key[key.index("](") + 2 : -1]
+        for part in inner.split(";"):
+            part = part.strip()
+            if part in ("0", "inf"):
+                continue
+            for term in part.replace(" - ", " + ").split(" + "):
+                if "c[" not in term:
+                    return None
+        return 1
+    return 0
+
+
+def _inhomogeneous_terms(poly: Poly) -> List[str]:
+    bad = []
+    for mono, coef in poly.terms.items():
+        weight = 0
+        broken = False
+        for key, exp in mono:
+            w = _atom_weight(key)
+            if w is None:
+                broken = True
+                break
+            weight += w * exp
+        if broken or weight != 1:
+            bad.append(str(Poly({mono: coef})))
+    return bad
+
+
+def cost_homogeneous(prog: Program) -> RuleResult:
+    res = RuleResult(
+        "COST-HOMOGENEOUS",
+        "every value the optimisers and the evaluator compute is a homogeneous linear form in the unit costs "
+        "(each monomial contains exactly one unit cost, sub-problem value or labelling charge, multiplied by "
+        "counts only): multiplying all unit costs by k then multiplies every table value and every total by k, "
+        "so minima scale by k and the optimal sets do not change",
+    )
+    sig = cm.evaluator_signature(prog)
+    emod = prog.module(cm.MODEL)
+    for part, store in (("rec", sig.rec), ("ordered", sig.ordered), ("unordered", sig.unordered)):
+        for kind in cm.KINDS:
+            for alt, pol in store[kind].items():
+                construct = f"{cm.MODEL}:{part}/{kind}" + (f"/{alt}" if alt else "") + "/homogeneous"
+                bad = _inhomogeneous_terms(pol)
+                site = sig.sites.get(f"{'rec' if part == 'rec' else '_' + part + '_labeling_cost'}.{kind}")
+                if bad:
+                    res.fail(construct, f"the evaluator's charge [{pol}] has terms that do not scale with the unit costs: {bad}", emod, site)
+                else:
+                    res.ok(construct, str(pol))
+    for rec in cm.find_recurrences(prog):
+        for key, cls in rec.classes.items():
+            for idx, site in enumerate(cls.sites):
+                construct = f"{rec.modname}:{rec.fn.name}/class[{cls.label}]#{idx}/homogeneous"
+                bad = _inhomogeneous_terms(site.poly) if site.poly is not None else ["<no polynomial>"]
+                if bad:
+                    res.fail(
+                        construct,
+                        f"the candidate value [{site.poly}] offered to `{cls.label}` has terms that do not scale "
+                        f"with the unit costs: {bad}",
+                        rec.mod,
+                        site.node,
+                    )
+                else:
+                    res.ok(construct, str(site.poly))
+        for idx, comb in enumerate(rec.combines):
+            hook = _CombHook(rec, comb)
+            cpoly = Normaliser(hook).poly(comb.comb_value)
+            construct = f"{rec.modname}:{rec.fn.name}/combine#{idx}[{comb.comb_label}]/homogeneous"
+            bad = _inhomogeneous_terms(cpoly)
+            if bad:
+                res.fail(construct, f"the combinator value [{cpoly}] has terms that do not scale with the unit costs: {bad}", rec.mod, comb.call)
+            else:
+                res.ok(construct, str(cpoly))
+    res.floor(40)
+    return res
+
 # ---------------------------------------------------------------------------
 # domains
 
@@ -678,7 +768,7 @@ def _parse_poly(text: str) -> Poly:
 
 
 def model_table(prog: Program) -> RuleResult:
-    from .model_spec import MODEL_SPEC
+    from .model_spec import MODEL_SPEC, SELECTOR_SPEC
 
     res = RuleResult(
         "MODEL-TABLE",
@@ -719,6 +809,24 @@ def model_table(prog: Program) -> RuleResult:
                     mod,
                     None,
                 )
+    # how alternatives are selected (a `min` over the two children where the model fixes the choice by the
+    # mapping would silently pick the cheaper outcome)
+    for key, want_sel in SELECTOR_SPEC.items():
+        construct = f"{cm.MODEL}:{key.replace('.', '/')}/selector"
+        got_sel = sig.selectors.get(key)
+        words = {"": "a single expression", "min": "the cheaper of the two assignments (min)", "conserved": "a test on which child stays below the node"}
+        if got_sel == want_sel:
+            res.ok(construct, f"alternatives chosen by {words[want_sel]}")
+        else:
+            part, kind = key.split(".")
+            site = sig.sites.get(f"{'rec' if part == 'rec' else '_' + part + '_labeling_cost'}.{kind}")
+            res.fail(
+                construct,
+                f"the evaluator chooses between the alternatives of {kind} by {words.get(got_sel, got_sel)} but the "
+                f"documented model fixes it by {words[want_sel]}",
+                mod,
+                site,
+            )
     # U atoms: 0 if parent <= child else sloss  (already enforced by the hook naming them U.x)
     for role in ("a", "b"):
         construct = f"{cm.MODEL}:unordered/charge-definition/{role}"
@@ -1078,6 +1186,7 @@ RULES = {
     "COSTKEYS": costkeys,
     "PRUNE": prune,
     "EVENT-SIG": event_sig,
+    "COST-HOMOGENEOUS": cost_homogeneous,
     "CLASS-DOMAIN": class_domain,
     "MIRROR": mirror,
     "COMBINE-ORIENT": combine_orient,
